@@ -306,6 +306,8 @@ class Driver:
             return
         if name == "ReadResult" and (op["f"], op["h"]) not in self.current:
             return               # nothing to read through: the call has no memento (precondition of read_result)
+        if name == "Reopen" and self.kind in ("memory", "null"):
+            return               # nothing persistent to open again
         if name == "Reopen":     # a new backend object on the same store (cold cache)
             self.held.clear()
             gc.collect()
